@@ -61,6 +61,7 @@ class Part:
     machine: Any = None  # factory(tier) -> RuleBasedStateMachine class (histories)
     machine_steps: dict = field(default_factory=lambda: {"quick": 30, "thorough": 50})
     shards: int | None = None
+    shrink_key: str | None = None  # list-valued case key that may be reduced by ddmin
 
 
 class HarnessError(Exception):
@@ -226,6 +227,8 @@ class _StopShrink(KeyboardInterrupt):
 def shrink_case(part: Part, tier, seed, n_cases, signature, first_case, budget_s):
     """Re-run the seeded shard with a test failing only on `signature`."""
     if part.strategy is None:
+        if part.shrink_key:
+            return ddmin_case(part, signature, first_case, budget_s)
         return first_case
     import hypothesis
 
@@ -252,6 +255,40 @@ def shrink_case(part: Part, tier, seed, n_cases, signature, first_case, budget_s
     except BaseException:  # noqa: BLE001
         pass
     return best["case"]
+
+
+def ddmin_case(part: Part, signature, case, budget_s):
+    """Delta-debugging over a list-valued key (operation histories)."""
+    key = part.shrink_key
+    t0 = time.time()
+
+    def fails(items):
+        c = dict(case)
+        c[key] = items
+        try:
+            return any(s == signature for s, _ in part.check(c).violations)
+        except Exception:  # noqa: BLE001
+            return False
+
+    items = list(case[key])
+    n = 2
+    while len(items) >= 2 and time.time() - t0 < budget_s:
+        chunk = max(1, len(items) // n)
+        reduced = False
+        for i in range(0, len(items), chunk):
+            cand = items[:i] + items[i + chunk :]
+            if cand and fails(cand):
+                items = cand
+                n = max(n - 1, 2)
+                reduced = True
+                break
+        if not reduced:
+            if chunk == 1:
+                break
+            n = min(len(items), n * 2)
+    out = dict(case)
+    out[key] = items
+    return out
 
 
 # --------------------------------------------------------------------------
